@@ -71,22 +71,42 @@ impl ChanBuilder {
         let ops = sh.threads.iter().map(|t| t.steps.len()).max().unwrap_or(0);
         let shape_full = if fl.is_bounded() { format!("{}_cap{}", sh.name, sh.cap.unwrap()) } else { sh.name.to_string() };
         let name = format!("{}/{}", fl.name(), shape_full);
-        let mut tiers = if nthreads >= 3 { (Some(1), Some(2)) } else { (Some(2), Some(3)) };
-        if let Some(t) = tier_override(&name) {
-            tiers = t;
+        // two threads: quick 2, thorough 3 (lock-based flavours) / 4 (lock-free flavours, whose
+        // spaces stay below ~3 M executions at bound 4); three threads: quick 1, thorough 2
+        let default_tiers = if nthreads >= 3 {
+            (Some(1), Some(2))
+        } else if is_lock_based(fl) {
+            (Some(2), Some(3))
+        } else {
+            (Some(2), Some(4))
+        };
+        let body = ChanScen { flavour: fl, cap: sh.cap, asyn: sh.asyn, n_tx: sh.n_tx, n_rx: sh.n_rx, threads: sh.threads, drains: sh.drains, prefill: sh.prefill };
+        // loom's bounded DPOR starts every exploration with the main thread running until it blocks
+        // and does not reach every schedule inside the nominal bound (measured: a consumer on the
+        // main thread never sees its first try_recv succeed). Two-thread shapes are therefore run
+        // in both orientations; the fingerprint does not depend on the orientation.
+        let swappable = nthreads == 2 && !body.threads.iter().any(|t| t.steps.iter().any(|s| matches!(s, Step::JoinAll)));
+        let mut variants = vec![(name.clone(), body.clone())];
+        if swappable {
+            let mut b2 = body.clone();
+            b2.threads.swap(0, 1);
+            variants.push((format!("{}@swap", name), b2));
         }
-        self.out.push(Scenario {
-            name,
-            component: fl.name().into(),
-            shape: shape_full,
-            props: CHAN_PROPS.to_vec(),
-            threads: nthreads,
-            ops,
-            cap: cap_name(sh.cap),
-            pb_quick: tiers.0,
-            pb_thorough: tiers.1,
-            body: Body::Chan(ChanScen { flavour: fl, cap: sh.cap, asyn: sh.asyn, n_tx: sh.n_tx, n_rx: sh.n_rx, threads: sh.threads, drains: sh.drains, prefill: sh.prefill }),
-        });
+        for (vname, vbody) in variants {
+            let tiers = tier_override(&vname).or_else(|| tier_override(&name)).unwrap_or(default_tiers);
+            self.out.push(Scenario {
+                name: vname,
+                component: fl.name().into(),
+                shape: shape_full.clone(),
+                props: CHAN_PROPS.to_vec(),
+                threads: nthreads,
+                ops,
+                cap: cap_name(sh.cap),
+                pb_quick: tiers.0,
+                pb_thorough: tiers.1,
+                body: Body::Chan(vbody),
+            });
+        }
     }
 }
 
@@ -100,6 +120,11 @@ fn tier_override(name: &str) -> Option<(Option<usize>, Option<usize>)> {
         ("mpmc_bounded/send_batch2_vs_drain_cap1", None, Some(1)),
         ("mpmc_bounded/async_1p1c_send2_drain_cap1", None, Some(1)),
         ("mpmc_bounded/recv_rxdrop_vs_send2_cap1", Some(1), Some(2)),
+        // the consumer-on-a-spawned-thread orientation of the prefilled shapes is 10x the other one
+        ("mpmc_bounded/wrap_prefilled_send2_drain_cap2@swap", Some(1), Some(2)),
+        ("mpmc_bounded/backpressure_prefilled_trydrain_cap1@swap", Some(1), Some(2)),
+        ("mpmc_bounded/backpressure_prefilled_cap1@swap", Some(1), Some(2)),
+        ("mpmc_bounded/async_backpressure_prefilled_cap1@swap", Some(1), Some(2)),
         // three threads on the lock-based flavours
         ("mpmc_bounded/2p1c_send1_each_cap1", None, Some(0)),
         ("mpmc_bounded/2p1c_send1_each_cap2", Some(0), Some(1)),
@@ -113,7 +138,7 @@ fn tier_override(name: &str) -> Option<(Option<usize>, Option<usize>)> {
         ("mpmc_bounded/batch2_vs_2recv_sender_alive_cap2", Some(1), Some(2)),
         ("mpmc_unbounded/1p2c_send2_drain", Some(0), Some(1)),
         ("mpmc_unbounded/1p2c_send1_drain", Some(1), Some(2)),
-        ("mpmc_unbounded/2p1c_send1_each", Some(1), Some(2)),
+        ("mpmc_unbounded/2p1c_send1_each", Some(0), Some(2)),
         ("mpmc_unbounded/send2_vs_2recv_sender_alive", Some(2), Some(2)),
         ("mpmc_unbounded/batch2_vs_2recv_sender_alive", Some(2), Some(2)),
     ];
